@@ -753,6 +753,22 @@ func checkFileEq(cc *cutCounters, content string) error {
 		if fo != nil && (!fo.Equals(oo) || !oo.Equals(fo)) {
 			return fmt.Errorf("ParseFile result differs from ParseObject result for %s", clip(content))
 		}
+		if fo != nil {
+			// what the caller does with the result must not show in a later ParseFile of the same, unchanged file
+			growAll(fo)
+			fo.Set("changed-by-the-caller", 1)
+			fo2, ferr2 := at.ParseFile(p)
+			if fo2 == nil || ferr2 != nil || !fo2.Equals(oo) || !oo.Equals(fo2) {
+				got := "nil"
+				if fo2 != nil {
+					got = fo2.String()
+				}
+				return fmt.Errorf("a second ParseFile of the unchanged file (after the first result had been modified by the caller) returns %s, %v; the file holds %s", clip(got), ferr2, clip(content))
+			}
+			if fo3, _ := at.ParseFile(p); fo3 == nil || fo3 == fo2 || !fo3.Equals(oo) {
+				return fmt.Errorf("a third ParseFile of the unchanged file returns the same instance as the second or other content for %s", clip(content))
+			}
+		}
 		return nil
 	})
 }
@@ -1042,7 +1058,8 @@ func escapeVariant(text string) string {
 			b.WriteByte(text[i])
 		case c == '"' && !in:
 			in = true
-			b.WriteString("\"\\n")
+			// ... and characters whose code points end in the byte 0x0A (U+010A, U+4E0A, U+200A, U+1F60A): no line breaks either
+			b.WriteString("\"\\n\u010a\u4e0a\u200a\U0001f60a")
 		case c == '"' && in:
 			in = false
 			b.WriteString("\\u000a\\r\"")
